@@ -102,70 +102,70 @@ Proof.
 Qed.
 
 (* ---- one step of the index ---- *)
-Lemma insert_name st p n f :
-  look (by_name (idx_insert p st)) n f =
-  if beq_bytes n (last_seg p) && beq_bytes f p then Some (complete_pre p) else look (by_name st) n f.
+Lemma insert_name sfx st p n f :
+  look (by_name (idx_insert sfx p st)) n f =
+  if beq_bytes n (last_seg p) && beq_bytes f p then Some (complete_pre_fx sfx p) else look (by_name st) n f.
 Proof.
-  unfold idx_insert. destruct (index_byte dot (last_seg p)); simpl; apply look_inner_set.
+  unfold idx_insert. destruct (suffix_index sfx (last_seg p)); simpl; apply look_inner_set.
 Qed.
 
-Lemma insert_pre st p n f :
-  look (by_pre (idx_insert p st)) n f =
-  match index_byte dot (last_seg p) with
-  | Some i => if beq_bytes n (firstn i (last_seg p)) && beq_bytes f p then Some (complete_pre p)
+Lemma insert_pre sfx st p n f :
+  look (by_pre (idx_insert sfx p st)) n f =
+  match suffix_index sfx (last_seg p) with
+  | Some i => if beq_bytes n (firstn i (last_seg p)) && beq_bytes f p then Some (complete_pre_fx sfx p)
               else look (by_pre st) n f
   | None => look (by_pre st) n f
   end.
 Proof.
-  unfold idx_insert. destruct (index_byte dot (last_seg p)); simpl; [apply look_inner_set|reflexivity].
+  unfold idx_insert. destruct (suffix_index sfx (last_seg p)); simpl; [apply look_inner_set|reflexivity].
 Qed.
 
-Lemma remove_fixed_name st p n f :
-  look (by_name (idx_remove_fixed p st)) n f =
+Lemma remove_fixed_name sfx st p n f :
+  look (by_name (idx_remove_fixed sfx p st)) n f =
   if beq_bytes n (last_seg p) && beq_bytes f p then None else look (by_name st) n f.
 Proof.
-  unfold idx_remove_fixed. destruct (index_byte dot (last_seg p)); simpl; apply look_inner_del.
+  unfold idx_remove_fixed. destruct (suffix_index sfx (last_seg p)); simpl; apply look_inner_del.
 Qed.
 
-Lemma remove_fixed_pre st p n f :
-  look (by_pre (idx_remove_fixed p st)) n f =
-  match index_byte dot (last_seg p) with
+Lemma remove_fixed_pre sfx st p n f :
+  look (by_pre (idx_remove_fixed sfx p st)) n f =
+  match suffix_index sfx (last_seg p) with
   | Some i => if beq_bytes n (firstn i (last_seg p)) && beq_bytes f p then None else look (by_pre st) n f
   | None => look (by_pre st) n f
   end.
 Proof.
-  unfold idx_remove_fixed. destruct (index_byte dot (last_seg p)); simpl; [apply look_inner_del|reflexivity].
+  unfold idx_remove_fixed. destruct (suffix_index sfx (last_seg p)); simpl; [apply look_inner_del|reflexivity].
 Qed.
 
-Lemma remove_name st p n f :
-  look (by_name (idx_remove p st)) n f =
+Lemma remove_name sfx st p n f :
+  look (by_name (idx_remove sfx p st)) n f =
   if beq_bytes n (last_seg p) && beq_bytes f (last_seg p) then None else look (by_name st) n f.
 Proof.
-  unfold idx_remove. destruct (index_byte dot (last_seg p)); simpl; apply look_inner_del.
+  unfold idx_remove. destruct (suffix_index sfx (last_seg p)); simpl; apply look_inner_del.
 Qed.
 
-Lemma remove_pre st p n f :
-  look (by_pre (idx_remove p st)) n f =
-  match index_byte dot (last_seg p) with
+Lemma remove_pre sfx st p n f :
+  look (by_pre (idx_remove sfx p st)) n f =
+  match suffix_index sfx (last_seg p) with
   | Some i => if beq_bytes n (firstn i (last_seg p)) && beq_bytes f (firstn i (last_seg p)) then None
               else look (by_pre st) n f
   | None => look (by_pre st) n f
   end.
 Proof.
-  unfold idx_remove. destruct (index_byte dot (last_seg p)); simpl; [apply look_inner_del|reflexivity].
+  unfold idx_remove. destruct (suffix_index sfx (last_seg p)); simpl; [apply look_inner_del|reflexivity].
 Qed.
 
 (* ---- refinement steps ---- *)
-Definition index_is' (st : idx) (s : fset) : Prop :=
-  forall n f, look (by_name st) n f = spec_name s n f /\ look (by_pre st) n f = spec_pre s n f.
+Definition index_is' (sfx : bool) (st : idx) (s : fset) : Prop :=
+  forall n f, look (by_name st) n f = spec_name sfx s n f /\ look (by_pre st) n f = spec_pre sfx s n f.
 
-Lemma index_is_iff st s : index_is st s <-> index_is' st s.
+Lemma index_is_iff sfx st s : index_is sfx st s <-> index_is' sfx st s.
 Proof. unfold index_is, index_is'. split; intros H n f; exact (H n f). Qed.
 
-Lemma index_is_empty : index_is' idx_empty [].
+Lemma index_is_empty sfx : index_is' sfx idx_empty [].
 Proof. intros n f. split; reflexivity. Qed.
 
-Lemma insert_refines st s p : index_is' st s -> index_is' (idx_insert p st) (fadd p s).
+Lemma insert_refines sfx st s p : index_is' sfx st s -> index_is' sfx (idx_insert sfx p st) (fadd p s).
 Proof.
   intros H n f. destruct (H n f) as [Hn Hp]. split.
   - rewrite insert_name, Hn. unfold spec_name. rewrite fmem_fadd.
@@ -175,13 +175,13 @@ Proof.
     + rewrite andb_false_r. reflexivity.
   - rewrite insert_pre, Hp. unfold spec_pre. rewrite fmem_fadd.
     beq_cases f p Ef; simpl.
-    + subst f. destruct (index_byte dot (last_seg p)) as [i|]; [|destruct (fmem p s); reflexivity].
+    + subst f. destruct (suffix_index sfx (last_seg p)) as [i|]; [|destruct (fmem p s); reflexivity].
       rewrite (beq_sym n). destruct (beq_bytes (firstn i (last_seg p)) n); simpl; [reflexivity|].
       destruct (fmem p s); reflexivity.
-    + destruct (index_byte dot (last_seg p)); [rewrite andb_false_r|]; reflexivity.
+    + destruct (suffix_index sfx (last_seg p)); [rewrite andb_false_r|]; reflexivity.
 Qed.
 
-Lemma remove_fixed_refines st s p : index_is' st s -> index_is' (idx_remove_fixed p st) (fdel p s).
+Lemma remove_fixed_refines sfx st s p : index_is' sfx st s -> index_is' sfx (idx_remove_fixed sfx p st) (fdel p s).
 Proof.
   intros H n f. destruct (H n f) as [Hn Hp]. split.
   - rewrite remove_fixed_name, Hn. unfold spec_name. rewrite fmem_fdel.
@@ -191,21 +191,21 @@ Proof.
     + rewrite andb_false_r. reflexivity.
   - rewrite remove_fixed_pre, Hp. unfold spec_pre. rewrite fmem_fdel.
     beq_cases f p Ef; simpl.
-    + subst f. destruct (index_byte dot (last_seg p)) as [i|]; [|destruct (fmem p s); reflexivity].
+    + subst f. destruct (suffix_index sfx (last_seg p)) as [i|]; [|destruct (fmem p s); reflexivity].
       rewrite (beq_sym n). destruct (beq_bytes (firstn i (last_seg p)) n); simpl; [reflexivity|].
       destruct (fmem p s); reflexivity.
-    + destruct (index_byte dot (last_seg p)); [rewrite andb_false_r|]; reflexivity.
+    + destruct (suffix_index sfx (last_seg p)); [rewrite andb_false_r|]; reflexivity.
 Qed.
 
 (* ---- whole histories ---- *)
-Lemma fixed_refines_from ops : forall st s, index_is' st s ->
-  index_is' (fold_left idx_step_fixed ops st) (fold_left files_step ops s).
+Lemma fixed_refines_from sfx ops : forall st s, index_is' sfx st s ->
+  index_is' sfx (fold_left (idx_step_fixed_g sfx) ops st) (fold_left files_step ops s).
 Proof.
   induction ops as [|o ops IH]; intros st s H; simpl; [exact H|].
   apply IH. destruct o; simpl; [apply insert_refines|apply remove_fixed_refines]; exact H.
 Qed.
 
-Theorem fixed_refines ops : index_is (idx_run_fixed ops) (files_after ops).
+Theorem fixed_refines sfx ops : index_is sfx (idx_run_fixed_g sfx ops) (files_after ops).
 Proof. apply index_is_iff. apply fixed_refines_from. apply index_is_empty. Qed.
 
 (* ---- the code as written ---- *)
@@ -264,14 +264,14 @@ Qed.
 Definition all_abs (s : fset) : Prop := forall f, fmem f s = true -> abs_path f = true.
 
 (* on an index whose files are all absolute paths, RemoveOneFile changes no lookup at all *)
-Lemma remove_noop st s p : all_abs s -> index_is' st s -> index_is' (idx_remove p st) s.
+Lemma remove_noop sfx st s p : all_abs s -> index_is' sfx st s -> index_is' sfx (idx_remove sfx p st) s.
 Proof.
   intros Habs H n f. destruct (H n f) as [Hn Hp]. split.
   - rewrite remove_name. destruct (beq_bytes n (last_seg p) && beq_bytes f (last_seg p)) eqn:E; [|exact Hn].
     apply andb_true_iff in E as [_ E2]. apply beq_bytes_eq in E2.
     unfold spec_name. destruct (fmem f s) eqn:Em; [|reflexivity].
     exfalso. apply (abs_not_last_seg f p); [apply Habs; exact Em|exact E2].
-  - rewrite remove_pre. destruct (index_byte dot (last_seg p)) as [i|]; [|exact Hp].
+  - rewrite remove_pre. destruct (suffix_index sfx (last_seg p)) as [i|]; [|exact Hp].
     destruct (beq_bytes n (firstn i (last_seg p)) && beq_bytes f (firstn i (last_seg p))) eqn:E; [|exact Hp].
     apply andb_true_iff in E as [_ E2]. apply beq_bytes_eq in E2.
     unfold spec_pre. destruct (fmem f s) eqn:Em; [|reflexivity].
@@ -285,8 +285,8 @@ Proof.
   - apply Hs. exact Hf.
 Qed.
 
-Lemma unfixed_exact_from ops : forall st s, abs_ops ops = true -> all_abs s -> index_is' st s ->
-  index_is' (fold_left idx_step ops st) (fold_left ever_step ops s).
+Lemma unfixed_exact_from sfx ops : forall st s, abs_ops ops = true -> all_abs s -> index_is' sfx st s ->
+  index_is' sfx (fold_left (idx_step_g sfx) ops st) (fold_left ever_step ops s).
 Proof.
   induction ops as [|o ops IH]; intros st s Ha Hs H; simpl; [exact H|].
   simpl in Ha. apply andb_true_iff in Ha as [Ho Ha].
@@ -296,15 +296,15 @@ Proof.
 Qed.
 
 (* exact behaviour of the unchanged code: the index of every file ever created *)
-Theorem unfixed_exact ops : abs_ops ops = true -> index_is (idx_run ops) (ever_inserted ops).
+Theorem unfixed_exact sfx ops : abs_ops ops = true -> index_is sfx (idx_run_g sfx ops) (ever_inserted ops).
 Proof.
   intros Ha. apply index_is_iff. apply unfixed_exact_from; [exact Ha| |apply index_is_empty].
   intros f Hf. discriminate.
 Qed.
 
 
-Lemma spec_ext s s' : (forall f, fmem f s = fmem f s') ->
-  forall n f, spec_name s n f = spec_name s' n f /\ spec_pre s n f = spec_pre s' n f.
+Lemma spec_ext sfx s s' : (forall f, fmem f s = fmem f s') ->
+  forall n f, spec_name sfx s n f = spec_name sfx s' n f /\ spec_pre sfx s n f = spec_pre sfx s' n f.
 Proof. intros H n f. unfold spec_name, spec_pre. rewrite (H f). split; reflexivity. Qed.
 
 Lemma files_sub_ever_from ops : forall s e, (forall f, fmem f s = true -> fmem f e = true) ->
@@ -328,10 +328,10 @@ Proof.
   congruence.
 Qed.
 
-Theorem unfixed_refines_guarded ops :
-  abs_ops ops = true -> stale_remove ops = false -> index_is (idx_run ops) (files_after ops).
+Theorem unfixed_refines_guarded sfx ops :
+  abs_ops ops = true -> stale_remove ops = false -> index_is sfx (idx_run_g sfx ops) (files_after ops).
 Proof.
-  intros Ha Hs. pose proof (unfixed_exact ops Ha) as H.
+  intros Ha Hs. pose proof (unfixed_exact sfx ops Ha) as H.
   intros n f. destruct (H n f) as [H1 H2]. rewrite H1, H2.
   apply spec_ext. intros g.
   destruct (fmem g (ever_inserted ops)) eqn:Ee.
@@ -344,13 +344,13 @@ Qed.
 
 (* insert-only histories never have a stale entry *)
 
-Lemma insert_only_from ops : forall st s, no_removes ops = true -> index_is' st s ->
-  index_is' (fold_left idx_step ops st) (fold_left files_step ops s).
+Lemma insert_only_from sfx ops : forall st s, no_removes ops = true -> index_is' sfx st s ->
+  index_is' sfx (fold_left (idx_step_g sfx) ops st) (fold_left files_step ops s).
 Proof.
   induction ops as [|o ops IH]; intros st s Hn H; simpl; [exact H|].
   simpl in Hn. apply andb_true_iff in Hn as [Ho Hn]. destruct o as [p|p]; [|discriminate].
   apply IH; [exact Hn|]. apply insert_refines. exact H.
 Qed.
 
-Theorem unfixed_refines_insert_only ops : no_removes ops = true -> index_is (idx_run ops) (files_after ops).
+Theorem unfixed_refines_insert_only sfx ops : no_removes ops = true -> index_is sfx (idx_run_g sfx ops) (files_after ops).
 Proof. intros Hn. apply index_is_iff. apply insert_only_from; [exact Hn|apply index_is_empty]. Qed.
